@@ -202,7 +202,7 @@ pub fn check_lifecycle(c: &LoopCase, o: &LoopOutcome) -> Result<LifecycleStats, 
                     }
                     let _ = call_out_id.take();
                 }
-                Ev::Consumed { .. } | Ev::AllocOp { .. } | Ev::Panic { .. } => {}
+                Ev::Consumed { .. } | Ev::AllocOp { .. } | Ev::Panic { .. } | Ev::TallyClear => {}
                 Ev::DropIn { id } => {
                     if id == ZST_ID {
                         if call_depth > 0 {
